@@ -236,7 +236,7 @@ class RestoreFromCheckpoint(RestoreFromCheckpointModel):
         # ---- a fresh sampler (same arguments) that resumes
         rng2 = I.reg.mk_rng(z3.Const("resumed_rng", Misc), True)
         s2 = Obj("SMCSampler", {"history": NONE, "rng": rng2, "xp": Sym(z3.Const("sampler_xp", Misc), "ns"), "dtype": Sym(z3.Const("sampler_dtype", Misc), "dtype"),
-                                "_min_step": NONE})
+                                "_min_step": NONE, "n_likelihood_evaluations": IV(z3.Int("evals_of_resuming_sampler"))})
         route = shape["route"]
         if route == "dict":
             src = state
@@ -291,6 +291,15 @@ class RestoreFromCheckpoint(RestoreFromCheckpointModel):
                 a, b = h2.f.get(nm), g0["hist"].f.get(nm)
                 p.prove(a.len == b.len if isinstance(a, SymList) and isinstance(b, SymList) else z3.BoolVal(False),
                         f"{q}:C11:C18:restored series `{nm}` has the checkpointed entries {tag}")
+        # C17: the counter reports what *this* sampler's likelihood was asked to evaluate: restoring a checkpoint does not touch it
+        ev = s2.f.get("n_likelihood_evaluations")
+        p.prove(to_int(ev) == z3.Int("evals_of_resuming_sampler") if isinstance(ev, Z) else z3.BoolVal(False),
+                f"{q}:C17:restoring a checkpoint leaves the likelihood-evaluation counter of the resuming sampler untouched {tag}")
+        if route == "dict" and ok:
+            # the caller's checkpoint dictionary is a record: the resumed run appends to its own copy of the history, never to the dictionary's
+            src_h = g["state"].d.get("history") if isinstance(g["state"], PyDict) else None
+            alias = (h2 is src_h) or any(h2.f.get(nm) is src_h.f.get(nm) for nm in ALL_SERIES + ["sample_history"]) if isinstance(src_h, Obj) else True
+            p.prove(z3.BoolVal(not alias), f"{q}:C11:C18:the restored history is the sampler's own copy (a second resume from the same dictionary sees the checkpoint as written) {tag}")
         st = g["rng2"].info.get("state")
         p.prove(st.e == BITGEN(g0["rng"].e) if isinstance(st, Sym) else z3.BoolVal(False), f"{q}:C11:C20:generator state restored {tag}")
         ms = s2.f.get("_min_step", NONE)
